@@ -626,7 +626,8 @@ def _(r):
         h = r.choice([0, 1])
         if r.random() < 0.2:                       # the selected degree holds only the essential class (H0 of a connected cloud)
             d[h] = [[float(r.randint(0, 3)), np.inf]] if isinstance(d[h], list) else np.array([[float(r.randint(0, 3)), np.inf]])
-        return Case(lambda d, h, c: state(C(dgms=d, hom_deg=h, compute=c)), [d, h, r.random() < 0.7])
+        return Case(lambda d, h, c: state(C(dgms=d, hom_deg=h, compute=c)), [d, h, r.random() < 0.7],
+                    dgm_args=(0,) if all(isinstance(x, np.ndarray) for x in d) else ())
     cp = mk_exact(r).critical_pairs
     return Case(lambda cp, h: state(C(critical_pairs=cp, hom_deg=h)), [cp, 0])
 
@@ -636,7 +637,11 @@ def _(r):
     C = P("landscapes.approximate").PersLandscapeApprox
     if r.random() < 0.7:
         d = [np.clip(g_dgm(r, 2), 0, 12), np.clip(g_dgm(r, 2), 0, 12)]
-        return Case(lambda d, h, c: state(C(start=0.0, stop=12.0, num_steps=25, dgms=d, hom_deg=h, compute=c)), [d, r.choice([0, 1]), r.random() < 0.7])
+        integer = r.random() < 0.5
+        if integer:
+            d = [np.clip(g_dgm(r, 2, integer=True), 0, 12), np.clip(g_dgm(r, 2, integer=True), 0, 12)]
+        return Case(lambda d, h, c: state(C(start=0.0, stop=12.0, num_steps=25, dgms=d, hom_deg=h, compute=c)), [d, r.choice([0, 1]), r.random() < 0.7],
+                    dgm_args=(0,) if integer else ())
     v = mk_approx(r).values
     return Case(lambda v: state(C(start=0.0, stop=12.0, num_steps=v.shape[1], values=v)), [v])
 
@@ -964,6 +969,8 @@ NARROW_FORMS = {"uint8": np.uint8, "int8": np.int8, "int16": np.int16, "int32": 
 
 
 def _as_form(a, form):
+    if isinstance(a, list) and a and all(isinstance(x, np.ndarray) for x in a):
+        return [_as_form(x, form) for x in a]             # a list of diagrams (one per homological degree)
     if form == "list":
         return np.asarray(a).tolist()
     if form == "int":
@@ -973,8 +980,16 @@ def _as_form(a, form):
     return np.asarray(a, dtype=float)
 
 
+def _has_inf(a):
+    if isinstance(a, list) and a and all(isinstance(x, np.ndarray) for x in a):
+        return any(_has_inf(x) for x in a)
+    return bool(np.any(np.isinf(np.asarray(a, dtype=float))))
+
+
 def _fits(a, form):
     """the values survive the conversion exactly (so every representation denotes the same diagram)"""
+    if isinstance(a, list) and a and all(isinstance(x, np.ndarray) for x in a):
+        return all(_fits(x, form) for x in a)
     f = np.asarray(a, dtype=float)
     if not np.all(np.isfinite(f)):
         return False
@@ -1048,7 +1063,7 @@ def exercise(ctx, name, seed, kind, others=()):
         base = None
         for form in ("float", "int", "list") + tuple(NARROW_FORMS):
             cf = _build(name, seed)
-            if form == "int" and any(np.any(np.isinf(np.asarray(cf.args[i], dtype=float))) for i in c.dgm_args):
+            if form == "int" and any(_has_inf(cf.args[i]) for i in c.dgm_args):
                 continue                      # an integer array cannot hold an infinite death
             if form in NARROW_FORMS and not all(_fits(cf.args[i], form) for i in c.dgm_args):
                 continue                      # narrow dtypes only where they hold the same values exactly
